@@ -115,6 +115,14 @@ func c12Run(c *fw.Ctx) fw.Outcome {
 	base := fw.Pick(r, []int64{0, 0, 0, 0, 40 * 3600e9, 100 * 3600e9, 2600 * 3600e9, 1790000000e9 + 1})
 	unit := fw.Pick(r, []int64{1, 1, 1e6, 1e9})
 	aItems, bItems := c12Items(r, na, "a", span, base, unit), c12Items(r, nb, "b", span, base, unit)
+	if na > 0 && nb > 0 && r.P(1, 3) {
+		// round 13: some cues of B show the same words over the same interval as a cue of A (the "[music]" cue of two
+		// language tracks): they are cues of their own all the same, none of them is a duplicate to be dropped
+		for j := 1 + r.Intn(3); j > 0; j-- {
+			a := aItems[r.Intn(na)]
+			bItems[r.Intn(nb)] = textItem(a.StartAt, a.EndAt, a.String())
+		}
+	}
 	key := fw.Mix(fw.HashString(c12Desc(aItems)), fw.HashString(c12Desc(bItems)), uint64(c.Idx))
 
 	// Order
